@@ -66,6 +66,7 @@ type HandlerCall struct {
 	Handler string
 	Offset  int
 	At      time.Duration
+	DoneAt  time.Duration // when the harness handler finished its own reading (before calling next)
 	Visible int // prefetched bytes visible when the handler started (markers only; -1 otherwise)
 	EvalSeq int // number of matcher evaluations recorded before this call
 }
@@ -201,7 +202,22 @@ type Consume struct {
 	StripPre bool
 }
 
+func (e *Env) observed() bool {
+	if e.OnlyG == "" {
+		return true
+	}
+	n := e.S.Name()
+	return n == e.OnlyG || (len(n) > len(e.OnlyG) && n[:len(e.OnlyG)+1] == e.OnlyG+".")
+}
+
 func (c *Consume) Handle(cx *layer4.Connection, next layer4.Handler) error {
+	if !c.E.observed() {
+		buf := make([]byte, c.K)
+		if _, err := io.ReadFull(cx, buf); err != nil {
+			return nil
+		}
+		return next.Handle(cx)
+	}
 	m := c.E.Reg.Lookup(cx.RemoteAddr())
 	if m == nil {
 		m = c.E.Reg.byAltAddr(cx)
@@ -230,6 +246,7 @@ func (c *Consume) Handle(cx *layer4.Connection, next layer4.Handler) error {
 		vis = cx.MatchingBytes()
 		hc.Visible = len(vis)
 	}
+	hcIdx := len(m.HandlerCalls)
 	m.HandlerCalls = append(m.HandlerCalls, hc)
 	ulk()
 	c.E.S.Tracef("H consume", c.Name, m.ID, off)
@@ -243,6 +260,7 @@ func (c *Consume) Handle(cx *layer4.Connection, next layer4.Handler) error {
 	}
 	lk()
 	m.Consumed = off + n
+	m.HandlerCalls[hcIdx].DoneAt = c.E.S.Elapsed()
 	ulk()
 	if err != nil {
 		// stream ended (or failed) before K bytes: nothing more to hand on
@@ -281,6 +299,10 @@ type Recorder struct {
 }
 
 func (r *Recorder) Handle(cx *layer4.Connection, next layer4.Handler) error {
+	if !r.E.observed() {
+		_, _ = io.Copy(io.Discard, cx)
+		return nil
+	}
 	m := r.E.Reg.Lookup(cx.RemoteAddr())
 	if m == nil {
 		m = r.E.Reg.byAltAddr(cx)
